@@ -1,13 +1,30 @@
-//! spike
+//! C12 harness: the REAL Init<..> validation with Create(..) / CreateIfNeeded(..) arguments, run natively against
+//! the system-program simulator (rent_sim.rs) installed behind the CPI hook, Rent injected through the sysvar hook.
+//!
+//! case   : kind mode seeded argform fkind cache lpby mult  FUNDER TARGET  tseeds tbump fseeds  findt findf  pda-table  ival
+//!          (ACC = key[32] owner[32] lamports signer writable dlen data..; seeds = n (len bytes..)*;
+//!           find = key[32] bump; pda-table = n (seeds res key[32])*; ival = n bytes..)
+//!          the find / pda-table entries are the model's oracle and are ignored here (the real functions are used)
+//! obs    : 0 needed_init ACC' ACC' held cpi-log | 1 code | 2 (panic) | 3 code (funder rejected) | 4 code (decode failed)
+#[path = "../rent_sim.rs"]
+mod rent_sim;
 use star_frame::account_set::modifiers::{Create, CreateIfNeeded};
 use star_frame::account_set::system_account::SystemAccount;
-use star_frame::account_set::{AccountSetDecode, AccountSetValidate, TryFromAccounts as _, TryFromAccountsWithArgs as _};
+use star_frame::account_set::{AccountSetDecode, AccountSetValidate, CanFundRent, TryFromAccounts as _, TryFromAccountsWithArgs as _};
 use star_frame::pinocchio::sysvars::rent::Rent;
 use star_frame::prelude::*;
-use star_frame::verif_hooks::{set_cpi_handler, set_rent, CpiRecord};
+use star_frame::verif_hooks::{set_cpi_handler, set_rent};
 use vh::*;
 
 pub const PROG_ID: Pubkey = Pubkey::new_from_array([77; 32]);
+
+#[derive(Debug, Clone)]
+pub struct VSeeds(pub Vec<Vec<u8>>);
+impl GetSeeds for VSeeds {
+    fn seeds(&self) -> Vec<&[u8]> {
+        self.0.iter().map(|s| s.as_slice()).collect()
+    }
+}
 
 pub mod p8 {
     use star_frame::borsh::{BorshDeserialize, BorshSerialize};
@@ -38,32 +55,305 @@ pub mod p8 {
         pub v: Vec<u8>,
     }
 }
+pub mod p1 {
+    use star_frame::prelude::*;
+    #[derive(StarFrameProgram)]
+    #[program(instruction_set = (), id = super::PROG_ID, account_discriminant = u8, no_entrypoint, skip_idl)]
+    pub struct P1;
+
+    #[zero_copy(pod)]
+    #[derive(Default, Debug, Eq, PartialEq, ProgramAccount)]
+    #[program_account(skip_idl, program = P1, discriminant = 0xA5u8, seeds = super::VSeeds)]
+    pub struct Fix1 {
+        pub a: [u8; 3],
+    }
+}
+use p1::*;
 use p8::*;
 
-#[derive(Debug, Clone)]
-pub struct VSeeds(pub Vec<Vec<u8>>);
-impl GetSeeds for VSeeds {
-    fn seeds(&self) -> Vec<&[u8]> {
-        self.0.iter().map(|s| s.as_slice()).collect()
+struct AccSpec {
+    key: [u8; 32],
+    owner: [u8; 32],
+    lamports: u64,
+    signer: bool,
+    writable: bool,
+    data: Vec<u8>,
+}
+fn rd_key(c: &mut Cur) -> Option<[u8; 32]> {
+    let s = c.take(32)?;
+    let mut k = [0u8; 32];
+    for i in 0..32 {
+        k[i] = s[i] as u8;
     }
+    Some(k)
+}
+fn rd_acc(c: &mut Cur) -> Option<AccSpec> {
+    let key = rd_key(c)?;
+    let owner = rd_key(c)?;
+    let lamports = c.next()? as u64;
+    let signer = c.next()? != 0;
+    let writable = c.next()? != 0;
+    let n = c.next()? as usize;
+    let data = c.take(n)?.iter().map(|x| *x as u8).collect();
+    Some(AccSpec { key, owner, lamports, signer, writable, data })
+}
+fn rd_bytes(c: &mut Cur) -> Option<Vec<u8>> {
+    let n = c.next()? as usize;
+    Some(c.take(n)?.iter().map(|x| *x as u8).collect())
+}
+fn rd_seeds(c: &mut Cur) -> Option<Vec<Vec<u8>>> {
+    let n = c.next()? as usize;
+    (0..n).map(|_| rd_bytes(c)).collect()
+}
+
+enum SArg {
+    Find(VSeeds),
+    Bump(VSeeds, u8),
+}
+
+fn go_unseeded<W, C>(set: &mut W, ifn: bool, c: C, ctx: &mut Context) -> Result<()>
+where
+    W: AccountSetValidate<Create<C>> + AccountSetValidate<CreateIfNeeded<C>>,
+{
+    if ifn {
+        set.validate_accounts(CreateIfNeeded(c), ctx)
+    } else {
+        set.validate_accounts(Create(c), ctx)
+    }
+}
+
+fn go_seeded<W, C>(set: &mut W, ifn: bool, c: C, sarg: &SArg, ctx: &mut Context) -> Result<()>
+where
+    W: AccountSetValidate<(Create<C>, Seeds<VSeeds>)>
+        + AccountSetValidate<(CreateIfNeeded<C>, Seeds<VSeeds>)>
+        + AccountSetValidate<(Create<C>, SeedsWithBump<VSeeds>)>
+        + AccountSetValidate<(CreateIfNeeded<C>, SeedsWithBump<VSeeds>)>,
+{
+    match (sarg, ifn) {
+        (SArg::Find(s), false) => set.validate_accounts((Create(c), Seeds(s.clone())), ctx),
+        (SArg::Find(s), true) => set.validate_accounts((CreateIfNeeded(c), Seeds(s.clone())), ctx),
+        (SArg::Bump(s, b), false) => set.validate_accounts((Create(c), SeedsWithBump { seeds: s.clone(), bump: *b }), ctx),
+        (SArg::Bump(s, b), true) => {
+            set.validate_accounts((CreateIfNeeded(c), SeedsWithBump { seeds: s.clone(), bump: *b }), ctx)
+        }
+    }
+}
+
+struct Env<'a> {
+    ifn: bool,
+    argform: i128,
+    sarg: Option<SArg>,
+    tinfo: AccountInfo,
+    f0: Option<&'a Mut<Signer>>,
+    fdyn: &'a dyn CanFundRent,
+    ival: Vec<u8>,
+}
+
+/// result of the validation: Ok((needed_init, held value bytes))
+type R = Result<(bool, Option<Vec<u8>>)>;
+
+macro_rules! forms_unseeded {
+    ($e:expr, $ctx:expr, $set:expr, $val:expr) => {{
+        let e = $e;
+        // argument forms: 0 `()`  1 `(&funder,)`  2 `|| value`  3 `(|| value, &funder)`
+        match (e.argform, e.f0) {
+            (0, _) => go_unseeded($set, e.ifn, (), $ctx),
+            (1, Some(f)) => go_unseeded($set, e.ifn, (f,), $ctx),
+            (1, None) => go_unseeded($set, e.ifn, (e.fdyn,), $ctx),
+            (3, Some(f)) => go_unseeded($set, e.ifn, ($val, f), $ctx),
+            (3, None) => go_unseeded($set, e.ifn, ($val, e.fdyn), $ctx),
+            (_, _) => go_unseeded($set, e.ifn, $val, $ctx),
+        }
+    }};
+}
+macro_rules! forms_seeded {
+    ($e:expr, $s:expr, $ctx:expr, $set:expr, $val:expr) => {{
+        let e = $e;
+        let s = $s;
+        match (e.argform, e.f0) {
+            (0, _) => go_seeded($set, e.ifn, (), s, $ctx),
+            (1, Some(f)) => go_seeded($set, e.ifn, (f,), s, $ctx),
+            (1, None) => go_seeded($set, e.ifn, (e.fdyn,), s, $ctx),
+            (3, Some(f)) => go_seeded($set, e.ifn, ($val, f), s, $ctx),
+            (3, None) => go_seeded($set, e.ifn, ($val, e.fdyn), s, $ctx),
+            (_, _) => go_seeded($set, e.ifn, $val, s, $ctx),
+        }
+    }};
+}
+
+macro_rules! run_kind {
+    ($name:ident, $A:ty, $mkval:expr, $held:expr) => {
+        fn $name(e: &Env, ctx: &mut Context) -> std::result::Result<R, i128> {
+            let iv = e.ival.clone();
+            let mkval = $mkval;
+            if let Some(sa) = &e.sarg {
+                let mut set =
+                    <Init<Seeded<$A, VSeeds>>>::decode_accounts(&mut &[e.tinfo][..], (), ctx).map_err(|x| err_code(x) as i128)?;
+                let r = forms_seeded!(e, sa, ctx, &mut set, { let iv = iv.clone(); move || mkval(&iv) });
+                Ok(r.map(|_| (set.needed_init(), $held(&**set))))
+            } else {
+                let mut set = <Init<Signer<$A>>>::decode_accounts(&mut &[e.tinfo][..], (), ctx).map_err(|x| err_code(x) as i128)?;
+                let r = forms_unseeded!(e, ctx, &mut set, { let iv = iv.clone(); move || mkval(&iv) });
+                Ok(r.map(|_| (set.needed_init(), $held(&**set))))
+            }
+        }
+    };
+}
+
+fn arr<const N: usize>(v: &[u8], o: usize) -> [u8; N] {
+    let mut a = [0u8; N];
+    for i in 0..N {
+        a[i] = *v.get(o + i).unwrap_or(&0);
+    }
+    a
+}
+
+run_kind!(run_fix, Account<Fix>, |iv: &Vec<u8>| Fix { a: u64::from_le_bytes(arr::<8>(iv, 0)), b: arr::<5>(iv, 8) }, |_a: &Account<Fix>| None::<Vec<u8>>);
+run_kind!(run_uns, Account<Uns>, |_iv: &Vec<u8>| star_frame::unsize::init::DefaultInit, |_a: &Account<Uns>| None::<Vec<u8>>);
+run_kind!(run_bo, BorshAccount<Bo>, |iv: &Vec<u8>| Bo { v: iv.clone() }, |a: &BorshAccount<Bo>| guarded(|| star_frame::borsh::to_vec(&**a).unwrap()).ok());
+run_kind!(run_fix1, Account<Fix1>, |iv: &Vec<u8>| Fix1 { a: arr::<3>(iv, 0) }, |_a: &Account<Fix1>| None::<Vec<u8>>);
+
+fn acc_obs(a: &NativeAccount, kidx: &dyn Fn(&[u8; 32]) -> i128, out: &mut Vec<i128>) {
+    out.push(a.lamports() as i128);
+    out.push(kidx(&a.owner()));
+    let d = a.data();
+    out.push(d.len() as i128);
+    out.extend(d.iter().map(|b| *b as i128));
+}
+
+fn run(c: &[i128]) -> Option<Vec<i128>> {
+    let mut cur = Cur::new(c);
+    let kind = cur.next()?;
+    let mode = cur.next()?;
+    let seeded = cur.next()?;
+    let argform = cur.next()?;
+    let fkind = cur.next()?;
+    let cache = cur.next()?;
+    let lpby = cur.next()? as u64;
+    let mult = cur.next()?;
+    let fs = rd_acc(&mut cur)?;
+    let ts = rd_acc(&mut cur)?;
+    let tseeds = rd_seeds(&mut cur)?;
+    let tbump = cur.next()? as u8;
+    let fseeds = rd_seeds(&mut cur)?;
+    let _findt = (rd_key(&mut cur)?, cur.next()?);
+    let _findf = (rd_key(&mut cur)?, cur.next()?);
+    let npda = cur.next()? as usize;
+    for _ in 0..npda {
+        rd_seeds(&mut cur)?;
+        cur.next()?;
+        rd_key(&mut cur)?;
+    }
+    let ival = rd_bytes(&mut cur)?;
+
+    #[allow(deprecated)]
+    set_rent(Some(Rent { lamports_per_byte_year: lpby, exemption_threshold: if mult == 1 { 1.0 } else { 2.0 }, burn_percent: 50 }));
+    let log = rent_sim::install(PROG_ID);
+
+    let fna = NativeAccount::new(fs.key, fs.owner, fs.lamports, &fs.data, fs.signer, fs.writable, false);
+    let tna = NativeAccount::new(ts.key, ts.owner, ts.lamports, &ts.data, ts.signer, ts.writable, false);
+    let known: Vec<[u8; 32]> = vec![[0; 32], PROG_ID.to_bytes(), fs.key, ts.key, fs.owner, ts.owner];
+    let kidx = move |k: &[u8; 32]| known.iter().position(|x| x == k).map(|i| i as i128).unwrap_or(-1);
+
+    let mut ctx = Context::new(&PROG_ID);
+    let finfo = fna.info();
+    let tinfo = tna.info();
+    let mut out = vec![];
+
+    // the funder, validated as its account-set type
+    let f0: Option<Mut<Signer>>;
+    let f1: Option<Mut<Seeded<SystemAccount, VSeeds>>>;
+    let f2: Option<Signer<Mut<SystemAccount>>>;
+    match fkind {
+        0 => {
+            match <Mut<Signer>>::try_from_account(&finfo, &mut ctx) {
+                Ok(f) => f0 = Some(f),
+                Err(e) => return Some(vec![3, err_code(e) as i128]),
+            }
+            f1 = None;
+            f2 = None;
+        }
+        1 => {
+            match <Mut<Seeded<SystemAccount, VSeeds>>>::try_from_account_with_args(&finfo, (), Seeds(VSeeds(fseeds.clone())), &mut ctx) {
+                Ok(f) => f1 = Some(f),
+                Err(e) => return Some(vec![3, err_code(e) as i128]),
+            }
+            f0 = None;
+            f2 = None;
+        }
+        _ => {
+            match <Signer<Mut<SystemAccount>>>::try_from_account(&finfo, &mut ctx) {
+                Ok(f) => f2 = Some(f),
+                Err(e) => return Some(vec![3, err_code(e) as i128]),
+            }
+            f0 = None;
+            f1 = None;
+        }
+    }
+    let fdyn: &dyn CanFundRent = match (&f0, &f1, &f2) {
+        (Some(f), _, _) => f,
+        (_, Some(f), _) => f,
+        (_, _, Some(f)) => f,
+        _ => unreachable!(),
+    };
+    // what `#[validate(funder)]` expands to (star_frame_proc validate.rs 232-236)
+    if cache == 1 && ctx.get_funder().is_none() {
+        match (&f0, &f1, &f2) {
+            (Some(f), _, _) => ctx.set_funder(Box::new(f.clone())),
+            (_, Some(f), _) => ctx.set_funder(Box::new(f.clone())),
+            (_, _, Some(f)) => ctx.set_funder(Box::new(f.clone())),
+            _ => {}
+        }
+    }
+    let sarg = match seeded {
+        0 => None,
+        1 => Some(SArg::Find(VSeeds(tseeds.clone()))),
+        _ => Some(SArg::Bump(VSeeds(tseeds.clone()), tbump)),
+    };
+    let env = Env { ifn: mode == 1, argform, sarg, tinfo, f0: f0.as_ref(), fdyn, ival };
+    let r = guarded(|| match kind {
+        0 => run_fix(&env, &mut ctx),
+        1 => run_uns(&env, &mut ctx),
+        2 => run_bo(&env, &mut ctx),
+        _ => run_fix1(&env, &mut ctx),
+    });
+    set_cpi_handler(None);
+    match r {
+        Err(()) => out.push(2),
+        Ok(Err(code)) => {
+            out.push(4);
+            out.push(code);
+        }
+        Ok(Ok(Err(e))) => {
+            out.push(1);
+            out.push(err_code(e) as i128);
+        }
+        Ok(Ok(Ok((ni, held)))) => {
+            out.push(0);
+            out.push(ni as i128);
+            acc_obs(&fna, &kidx, &mut out);
+            acc_obs(&tna, &kidx, &mut out);
+            match held {
+                None => out.push(-1),
+                Some(h) => {
+                    out.push(h.len() as i128);
+                    out.extend(h.iter().map(|b| *b as i128));
+                }
+            }
+            rent_sim::log_obs(&log.borrow(), &kidx, &mut out);
+        }
+    }
+    Some(out)
 }
 
 fn main() {
     quiet_panics();
-    let rent = Rent { lamports_per_byte_year: 3480, exemption_threshold: 2.0, burn_percent: 50 };
-    set_rent(Some(rent));
-    set_cpi_handler(Some(Box::new(|rec: &CpiRecord| {
-        eprintln!("CPI prog={:?} data={:?} metas={:?} seeds={:?}", &rec.program_id[..2], rec.data, rec.metas.iter().map(|m| (m.0[0], m.1, m.2)).collect::<Vec<_>>(), rec.signer_seeds);
-        Ok(())
-    })));
-    let f = NativeAccount::new([3; 32], [0; 32], 10_000_000, &[], true, true, false);
-    let t = NativeAccount::new([4; 32], [0; 32], 0, &[], true, true, false);
-    let mut ctx = Context::new(&PROG_ID);
-    let finfo = f.info();
-    let tinfo = t.info();
-    let funder = <Mut<Signer>>::try_from_account(&finfo, &mut ctx).unwrap();
-    let mut acct = <Init<Signer<Account<Fix>>>>::decode_accounts(&mut &[tinfo][..], (), &mut ctx).unwrap();
-    let r = guarded(|| acct.validate_accounts(Create((|| Fix { a: 5, b: [1, 2, 3, 4, 5] }, &funder)), &mut ctx));
-    eprintln!("{:?}", r.map(|x| x.map_err(err_code)));
-    eprintln!("min {}", rent.minimum_balance(21));
+    let args: Vec<String> = std::env::args().collect();
+    let cases = read_cases(&args[1]);
+    let mut o = Out::new();
+    for (cid, c) in &cases {
+        let obs = run(c).unwrap_or_else(|| vec![-1]);
+        o.line(cid, &obs);
+    }
+    o.flush();
 }
